@@ -24,8 +24,7 @@ def BSL : Byte := 92
 def stashSize : Nat := 1024
 
 /-- `esccpy(tgt, tz, src, sz)`: returns the bytes appended (`none` = the copy overran `tz`, the C function
-returns 0) and the byte it leaves at `tgt[n]` (the terminator position: 0 normally, the first source byte
-after an overrun). -/
+returns 0) and the byte it leaves at `tgt[n]` (the terminator position; 0 in both cases). -/
 def esccpy (tz : Nat) (src : List Byte) : Option (List Byte) × Byte :=
   let rec go (fuel : Nat) (s : List Byte) (acc : List Byte) : Option (List Byte) :=
     match fuel, s with
@@ -41,7 +40,7 @@ def esccpy (tz : Nat) (src : List Byte) : Option (List Byte) × Byte :=
       if acc'.length ≥ tz then none else go fuel rest' acc'
   match go (src.length + 1) src [] with
   | some out => (some out, 0)
-  | none => (none, src.headD 0)
+  | none => (none, 0)          -- `*tgt = '\\0'` on giving up
 
 /-! ### component state machine (`_ical_proc`) -/
 
